@@ -298,6 +298,31 @@ fn check_l3(acc: &mut Acc, sub: &str, rank: u64, x: f64) {
 }
 
 pub fn replay(sub: &str, case: &J, acc: &mut Acc) {
+    if let Some(t) = case["octet_text"].as_str() {
+        // re-derive the expectation from the text: the element is the token before the last ')' or " 2)"
+        let inner = t.trim_start_matches("#vu8(").trim_start_matches("#u8(").trim_start_matches("1 ").trim_end_matches(')').trim_end_matches(" 2");
+        let (radix, rest) = match &inner.get(..2) {
+            Some("#b") | Some("#B") => (2, &inner[2..]),
+            Some("#o") => (8, &inner[2..]),
+            Some("#x") | Some("#X") => (16, &inner[2..]),
+            Some("#d") => (10, &inner[2..]),
+            _ => (10, inner),
+        };
+        let neg = rest.starts_with('-');
+        let v = u64::from_str_radix(rest.trim_start_matches(|c| c == '+' || c == '-'), radix).unwrap_or(999);
+        match guard(|| lexpr::from_str(t)) {
+            Ok(Ok(val)) => {
+                let got = val.as_bytes().map(|b| b.to_vec()).unwrap_or_default();
+                let elem = if t.contains("(1 ") { got.get(1).copied() } else { got.first().copied() };
+                if v > 255 || (neg && v != 0) || elem != Some(v as u8) {
+                    acc.violation(sub, "octet-differs-from-literal", "octet-differs-from-literal", 0, format!("text={:?}", t), format!("read as {}", RV::from_value(&val)), || case.clone());
+                }
+            }
+            Err(p) => acc.violation(sub, "panic", "panic", 0, format!("text={:?}", t), p, || case.clone()),
+            _ => {}
+        }
+        return;
+    }
     if let Some(t) = case["text"].as_str() {
         let body = t;
         // recover the structure from the text
@@ -414,6 +439,58 @@ pub fn run(ctx: &Ctx) -> Report {
             match decimal_literal(&s) {
                 Some(lit) if expect(&lit) == Expect::Int(x) => check_literal(acc, &name, rank, &s, &lit),
                 _ => acc.violation(&name, "printed-integer-wrong", "printed-integer-wrong", rank, format!("int={}", x), format!("printed as {:?}", s), || json!({"text": s})),
+            }
+        });
+        rep.absorb(sub, accs);
+    }
+    if ctx.want("L6-octets") {
+        // the same integer literals in the one other place where the grammar has numbers: the
+        // elements of a byte vector. Whether signs and radix prefixes are octets is not
+        // documented, so the oracle is: rejected, or exactly the octet the literal denotes
+        // (mutant: `#b` read with radix 3 by the octet reader only)
+        let name = sfx("L6-octets");
+        let prefixes = ["", "#d", "#b", "#o", "#x", "#X", "#B"];
+        let signs = ["", "+", "-"];
+        let total = (prefixes.len() * signs.len() * 3 * 301) as u64;
+        let sub = Sub::new(&name, "integer literals 0..=300 in every radix spelling x sign x 0..2 leading zeros as the element of a byte vector, #u8(<lit>) and #u8(1 <lit> 2) and #vu8(<lit>): the text is rejected or the octet is exactly the value of the literal (never for a value above 255 or a negative one); non-trivial = accepted", &format!("{} literals x 3 frames", total));
+        let accs = par_ranks(total, |rank, acc| {
+            let r = rank as usize;
+            let v = r % 301;
+            let zeros = (r / 301) % 3;
+            let sign = signs[(r / 301 / 3) % 3];
+            let prefix = prefixes[r / 301 / 9];
+            let radix = match prefix {
+                "#b" | "#B" => 2,
+                "#o" => 8,
+                "#x" | "#X" => 16,
+                _ => 10,
+            };
+            let digits = match radix {
+                2 => format!("{:b}", v),
+                8 => format!("{:o}", v),
+                16 => format!("{:x}", v),
+                _ => format!("{}", v),
+            };
+            let lit = format!("{}{}{}{}", prefix, sign, "0".repeat(zeros), digits);
+            acc.sample(rank, || lit.clone());
+            for (fi, frame) in [("#u8(", ")"), ("#u8(1 ", " 2)"), ("#vu8(", ")")].iter().enumerate() {
+                let text = format!("{}{}{}", frame.0, lit, frame.1);
+                acc.evals += 1;
+                let r = guard(|| lexpr::from_str(&text));
+                let case = || json!({"octet_text": text});
+                match r {
+                    Err(p) => acc.violation(&name, "panic", "panic", rank, format!("text={:?}", text), p, case),
+                    Ok(Err(_)) => acc.outcome(&(0u8, fi)),
+                    Ok(Ok(val)) => {
+                        acc.nontrivial += 1;
+                        acc.outcome(&(1u8, fi));
+                        let want: Vec<u8> = if fi == 1 { vec![1, v as u8, 2] } else { vec![v as u8] };
+                        let ok = v <= 255 && (sign != "-" || v == 0) && val.as_bytes() == Some(&want[..]);
+                        if !ok {
+                            acc.violation(&name, "octet-differs-from-literal", &format!("octet-differs-from-literal:{}", prefix), rank, format!("text={:?}", text), format!("read as {}, the literal denotes {}{}", RV::from_value(&val), sign, v), case);
+                        }
+                    }
+                }
             }
         });
         rep.absorb(sub, accs);
